@@ -18,9 +18,11 @@ import (
 	"bytes"
 	"compress/gzip"
 	"fmt"
+	"io"
 	"io/ioutil"
 	"sync"
 
+	"github.com/henrylee2cn/erpc/v6/socket"
 	"github.com/henrylee2cn/erpc/v6/utils"
 	"github.com/henrylee2cn/erpc/v6/xfer"
 )
@@ -104,7 +106,13 @@ func (g *Gzip) OnUnpack(src []byte) (dest []byte, err error) {
 	gr := g.rPool.Get().(*gzip.Reader)
 	err = gr.Reset(bytes.NewReader(src))
 	if err == nil {
-		dest, err = ioutil.ReadAll(gr)
+		// never inflate beyond the per-message read limit (a small frame must not
+		// expand into an unbounded buffer)
+		limit := int64(socket.MessageSizeLimit())
+		dest, err = ioutil.ReadAll(io.LimitReader(gr, limit+1))
+		if err == nil && int64(len(dest)) > limit {
+			dest, err = nil, socket.ErrExceedMessageSizeLimit
+		}
 	}
 	gr.Close()
 	g.rPool.Put(gr)
